@@ -1,14 +1,15 @@
 #!/usr/bin/env python3
-"""store_seed.py <Cxx> <worktree> <name> "<needs>" "<caught-by>": copy a confirmed seeded change into seeded/<name>/"""
+"""store_seed.py <Cxx> <worktree> <name> "<needs>" "<caught-by>" [<subdir, default _seed>]: copy a confirmed seeded change into seeded/<name>/"""
 import json, os, shutil, sys
 pid, wt, name, needs, caught = sys.argv[1:6]
+sub = sys.argv[6] if len(sys.argv) > 6 else "_seed"
 dst = os.path.join(os.path.dirname(os.path.abspath(__file__)), "..", "seeded", name)
 os.makedirs(dst, exist_ok=True)
-shutil.copy(os.path.join(wt, "_seed", "patch.diff"), os.path.join(dst, "patch.diff"))
-shutil.copy(os.path.join(wt, "_seed", "demo.py"), os.path.join(dst, "demo.py"))
-if os.path.exists(os.path.join(wt, "_seed", "NOTES.md")):
-    shutil.copy(os.path.join(wt, "_seed", "NOTES.md"), os.path.join(dst, "NOTES.md"))
-ver = json.load(open(os.path.join(wt, "_seed", "verify.json")))
+shutil.copy(os.path.join(wt, sub, "patch.diff"), os.path.join(dst, "patch.diff"))
+shutil.copy(os.path.join(wt, sub, "demo.py"), os.path.join(dst, "demo.py"))
+if os.path.exists(os.path.join(wt, sub, "NOTES.md")):
+    shutil.copy(os.path.join(wt, sub, "NOTES.md"), os.path.join(dst, "NOTES.md"))
+ver = json.load(open(os.path.join(wt, sub, "verify.json")))
 meta = {
     "property": pid,
     "needs_to_manifest": needs,
